@@ -7,8 +7,8 @@ from props import xpath_common as X
 
 FIELDS = ["id", "k1", "f", "a"]
 BIG = 9007199254740993      # 2**53 + 1: not representable as a float
-VALS = ["1", "2", "x", "B", "a b", 1, 2, 1.5, "xy", "10", BIG, BIG - 1, "m=f", "a~b", "m=f~x", "C:\\tmp", "a\tb", "it's"]
-LITS = ["1", "2", "x", "B", "a b", "xy", "1.5", "zz", "10", "0", str(BIG), str(BIG - 1), "m=f", "a~b", "C:\\tmp", "a\tb", "it's"]
+VALS = ["1", "2", "x", "B", "a b", 1, 2, 1.5, "xy", "10", BIG, BIG - 1, "m=f", "a~b", "m=f~x", "C:\\tmp", "a\tb", "it's", "C++", "a+b"]
+LITS = ["1", "2", "x", "B", "a b", "xy", "1.5", "zz", "10", "0", str(BIG), str(BIG - 1), "m=f", "a~b", "C:\\tmp", "a\tb", "it's", "C++", "a+b", "+"]
 
 
 def gen_recs(rng, n=None):
